@@ -59,12 +59,19 @@ type Term struct {
 	Name string // OpVar
 	Hi   int    // OpExtract hi / ZExt,SExt: added bits
 	Lo   int
+	D    int32 // depth of the term DAG below this node
 }
 
 var idCtr uint64
 
 func newTerm(op Op, w int, args ...*Term) *Term {
-	return &Term{ID: atomic.AddUint64(&idCtr, 1), Op: op, W: w, Args: args}
+	d := int32(0)
+	for _, a := range args {
+		if a != nil && a.D >= d {
+			d = a.D + 1
+		}
+	}
+	return &Term{ID: atomic.AddUint64(&idCtr, 1), Op: op, W: w, Args: args, D: d}
 }
 
 func mask(w int) uint64 {
@@ -519,7 +526,74 @@ func Add(a, b *Term) *Term  { return bin(OpBVAdd, a, b) }
 func Sub(a, b *Term) *Term  { return bin(OpBVSub, a, b) }
 func Mul(a, b *Term) *Term  { return bin(OpBVMul, a, b) }
 func UDiv(a, b *Term) *Term { return bin(OpBVUDiv, a, b) }
-func URem(a, b *Term) *Term { return bin(OpBVURem, a, b) }
+func URem(a, b *Term) *Term {
+	if b.IsConst() && b.Val != 0 && !a.IsConst() {
+		if ub, ok := UBound(a, 48); ok && ub < b.Val {
+			return a // a < b: the remainder is a itself
+		}
+	}
+	return bin(OpBVURem, a, b)
+}
+
+// UBound returns a sound upper bound of the unsigned value of t obtained by a shallow
+// structural analysis (zero extensions, masks, constants, non-wrapping sums, shifts
+// right, remainders, ite), looking at most depth levels down.
+func UBound(t *Term, depth int) (uint64, bool) {
+	if t.W == 0 || t.Arr || t.W > 64 {
+		return 0, false
+	}
+	full := mask(t.W)
+	if depth <= 0 {
+		return full, true
+	}
+	switch t.Op {
+	case OpConst:
+		return t.Val, true
+	case OpZExt:
+		if u, ok := UBound(t.Args[0], depth-1); ok {
+			return u, true
+		}
+	case OpBVAnd:
+		u0, ok0 := UBound(t.Args[0], depth-1)
+		u1, ok1 := UBound(t.Args[1], depth-1)
+		if ok0 && ok1 {
+			if u1 < u0 {
+				return u1, true
+			}
+			return u0, true
+		}
+	case OpBVAdd:
+		u0, ok0 := UBound(t.Args[0], depth-1)
+		u1, ok1 := UBound(t.Args[1], depth-1)
+		if ok0 && ok1 && u0+u1 >= u0 && u0+u1 <= full {
+			return u0 + u1, true
+		}
+	case OpBVURem:
+		if b := t.Args[1]; b.IsConst() && b.Val != 0 {
+			return b.Val - 1, true
+		}
+	case OpBVLShr, OpBVUDiv:
+		if u, ok := UBound(t.Args[0], depth-1); ok {
+			return u, true
+		}
+	case OpIte:
+		u0, ok0 := UBound(t.Args[1], depth-1)
+		u1, ok1 := UBound(t.Args[2], depth-1)
+		if ok0 && ok1 {
+			if u1 > u0 {
+				return u1, true
+			}
+			return u0, true
+		}
+	case OpExtract:
+		if t.Lo == 0 {
+			if u, ok := UBound(t.Args[0], depth-1); ok && u <= full {
+				return u, true
+			}
+		}
+	}
+	return full, true
+}
 func SDiv(a, b *Term) *Term { return bin(OpBVSDiv, a, b) }
 func SRem(a, b *Term) *Term { return bin(OpBVSRem, a, b) }
 func BAnd(a, b *Term) *Term { return bin(OpBVAnd, a, b) }
